@@ -694,6 +694,12 @@ def step (m : MState) (e : TEv) : MState :=
       let w := x.ctxs.foldl (fun acc c => checkW acc (!c.termEnded || c.cancelled) "C19" "context-outlives-term"
                    s!"instance {i}: promotion context {c.cid} (token {c.tok}) still live after its term ended") w
       { m with w := w }
+  | .observe _ => { m with w := w0 }
+  | .snap i st il lid tok =>
+    -- C18: whenever it is taken - also while a transition is under way - a snapshot is coherent in itself
+    let w := checkW w0 (il = decide (st = 2)) "C18" "snapshot-incoherent" s!"instance {i}: Status() returned State={st} with IsLeader={il}"
+    let w := checkW w (¬ il ∨ (lid = i ∧ tok ≠ 0)) "C18" "snapshot-incoherent" s!"instance {i}: Status() of a leader shows LeaderID={lid} Token={tok}"
+    { m with w := w.hit "C18:concurrent-snapshot" }
   | .health i _ res rem =>
     let w := checkW w0 (rem ≤ 100000000 ∧ rem ≥ 0) "C12" "health-deadline" s!"instance {i}: health check context expires in {rem} ns"
     let w := w.hit (if res then "C12:healthy" else "C12:unhealthy")
